@@ -17,6 +17,24 @@ use tz::TimeZone;
 
 thread_local! {
     pub static LAST_PANIC: RefCell<String> = const { RefCell::new(String::new()) };
+    static AMBIENT_READS: RefCell<Vec<ReadRec>> = const { RefCell::new(Vec::new()) };
+}
+
+const AMBIENT_VALUES: &[&str] = &["UTC", "Europe/Paris", ":Europe/Paris", "localtime", "/usr/share/zoneinfo/UTC", "EST5EDT", " UTC ", "Nonexistent/Zone", "<+03>-3", "", ":", "/etc/localtime", ":/etc/localtime", "posixrules", "right/UTC", "Etc/GMT+5", "CET-1CEST,M3.5.0,M10.5.0/3", "UTC0", " UTC0\n", ":Nonexistent/Zone", "Europe", "/nonexistent/abs"];
+
+/// std::fs::read with a record of what was asked (for the ambient, real-filesystem operations)
+fn ambient_read(path: &str) -> Result<Vec<u8>, Box<dyn std::error::Error + Send + Sync + 'static>> {
+    let r = std::fs::read(path);
+    let rec = ReadRec {
+        seq: 0,
+        path: path.to_string(),
+        res: match &r {
+            Ok(b) => Ok((Arc::new(b.clone()), Expect::Unknown)),
+            Err(_) => Err(crate::scn::ErrKind::Enoent),
+        },
+    };
+    AMBIENT_READS.with(|a| a.borrow_mut().push(rec));
+    Ok(r?)
 }
 
 /// Install the silent panic hook (records message + location for the catching side).
@@ -98,17 +116,20 @@ pub const NSLOTS: usize = 8;
 pub const NPOOL: usize = 4;
 pub const NBUFS: usize = 3;
 
-pub struct ActorState {
+pub struct ActorState<'c> {
     pub slots: Vec<Option<SlotVal>>,
     pub bufs: Vec<Vec<Option<FoundDateTimeKind>>>,
     pub canon: String,
+    /// one long-lived settings object per actor (used whenever an operation asks for the full
+    /// directory list), so that state kept inside a settings object across calls would show
+    pub settings: Option<TimeZoneSettings<'c>>,
 }
 
-impl ActorState {
+impl<'c> ActorState<'c> {
     pub fn new() -> Self {
         let mut canon = String::new();
         canon.reserve(1 << 16);
-        ActorState { slots: (0..NSLOTS).map(|_| None).collect(), bufs: (0..NBUFS).map(|_| Vec::new()).collect(), canon }
+        ActorState { slots: (0..NSLOTS).map(|_| None).collect(), bufs: (0..NBUFS).map(|_| Vec::new()).collect(), canon, settings: None }
     }
 }
 
@@ -152,6 +173,7 @@ pub struct Ctx<'a> {
     pub sc: &'a Scenario,
     pub armed: Armed,
     pub record: bool,
+    pub dirs_all: Vec<&'a str>,
 }
 
 // ------------------------------------------------------------------ measured calls
@@ -215,7 +237,7 @@ impl<'a> ZH<'a> {
     }
 }
 
-fn handle<'a>(st: &'a ActorState, z: &ZRef) -> Option<(ZH<'a>, Option<Prov>)> {
+fn handle<'a>(st: &'a ActorState<'_>, z: &ZRef) -> Option<(ZH<'a>, Option<Prov>)> {
     match z {
         ZRef::P(k) => st.slots[k % NSLOTS].as_ref().map(|s| (ZH::Owned(&s.zone), Some(s.prov.clone()))),
         ZRef::S(k) => {
@@ -747,7 +769,7 @@ fn state_class(op: &str, outcome: &str) {
     }
 }
 
-pub fn run_op(ctx: &Ctx, me: usize, st: &mut ActorState, opi: usize, op: &Op) {
+pub fn run_op<'c>(ctx: &'c Ctx<'c>, me: usize, st: &mut ActorState<'c>, opi: usize, op: &Op) {
     let armed = &ctx.armed;
     {
         let mut g = lock();
@@ -781,8 +803,20 @@ pub fn run_op(ctx: &Ctx, me: usize, st: &mut ActorState, opi: usize, op: &Op) {
             if let Some(w) = lock().as_mut() {
                 w.in_resolve[me] = true;
             }
+            let full_list = dirs.len() == ctx.dirs_all.len() && dirs.iter().enumerate().all(|(i, d)| *d == i);
+            if full_list && st.settings.is_none() {
+                st.settings = Some(TimeZoneSettings::new(&ctx.dirs_all[..], sim_read));
+            }
+            let persistent = if full_list { st.settings.as_ref() } else { None };
             let (r, m) = measured(false, || {
-                let settings = TimeZoneSettings::new(&dirv, sim_read);
+                let fresh;
+                let settings = match persistent {
+                    Some(s) => s,
+                    None => {
+                        fresh = TimeZoneSettings::new(&dirv, sim_read);
+                        &fresh
+                    }
+                };
                 if local {
                     settings.parse_local()
                 } else {
@@ -1017,6 +1051,61 @@ pub fn run_op(ctx: &Ctx, me: usize, st: &mut ActorState, opi: usize, op: &Op) {
         Op::DropSlot { slot } => {
             st.slots[slot % NSLOTS] = None;
             out.push_str("dropped");
+        }
+        Op::Construct { kind, args } if kind == "ambient_tz" || kind == "ambient_local" => {
+            // real-filesystem operations (fixed list, not part of the seeded search): the hard-wired
+            // default settings must behave exactly like explicit settings with the default directories
+            // and a recording std::fs::read, and the recorded opens must satisfy the reference resolver
+            let v = AMBIENT_VALUES[(args.first().copied().unwrap_or(0).unsigned_abs() % AMBIENT_VALUES.len() as u64) as usize];
+            let local = kind == "ambient_local";
+            AMBIENT_READS.with(|r| r.borrow_mut().clear());
+            let (a, _m) = measured(false, || if local { TimeZone::local() } else { TimeZone::from_posix_tz(v) });
+            let default_reads = AMBIENT_READS.with(|r| r.borrow().len());
+            let (b, _m) = measured(false, || {
+                let s = TimeZoneSettings::new(TimeZoneSettings::DEFAULT_DIRECTORIES, ambient_read);
+                if local {
+                    s.parse_local()
+                } else {
+                    s.parse_posix_tz(v)
+                }
+            });
+            let reads: Vec<ReadRec> = AMBIENT_READS.with(|r| std::mem::take(&mut *r.borrow_mut()));
+            match (&a, &b) {
+                (Ok(a), Ok(b)) => {
+                    let (ra, rb) = (Res::of(a), Res::of(b));
+                    let same = match (&ra, &rb) {
+                        (Res::Ok(x), Res::Ok(y)) => x == y,
+                        (Res::ErrIo, Res::ErrIo) => true,
+                        (Res::ErrTz(x), Res::ErrTz(y)) => x == y,
+                        _ => false,
+                    };
+                    let _ = write!(out, "ambient({v:?},{}) default={} explicit={}", local, ra.brief().len(), rb.brief().len());
+                    if !same {
+                        push_violation(armed, "C20.result_file", "default-settings-differ", format!("TZ {v:?}: TimeZone::{} gives {} but TimeZoneSettings::new(DEFAULT_DIRECTORIES, std::fs::read) gives {}", if local { "local()" } else { "from_posix_tz" }, ra.brief(), rb.brief()));
+                    }
+                    if default_reads != 0 {
+                        push_violation(armed, "HARNESS.ambient", "harness", "the default reader went through the recording reader".into());
+                    }
+                    let dirs: Vec<&str> = TimeZoneSettings::DEFAULT_DIRECTORIES.to_vec();
+                    let chk = check_resolve(&TzArg::Lit(v.to_string()), local, &dirs, &reads, &rb);
+                    for (kind, sig, detail) in chk.findings {
+                        let oracle = match kind {
+                            "open_history" => "C20.open_history",
+                            "result_description" => "C20.result_description",
+                            "metamorphic_trim" => "C20.metamorphic_trim",
+                            "panic" => "C07.panic",
+                            _ => "C20.result_file",
+                        };
+                        push_violation(armed, oracle, &format!("ambient-{sig}"), format!("real filesystem: {detail}"));
+                    }
+                    probe("ambient_real_filesystem_operation");
+                }
+                _ => {
+                    let p = LAST_PANIC.with(|p| p.borrow().clone());
+                    let _ = write!(out, "PANIC({p})");
+                    panicked = Some(p);
+                }
+            }
         }
         Op::Construct { kind, args } => {
             let (r, _m) = measured(false, || crate::construct::run(kind, args));
@@ -1254,7 +1343,7 @@ pub fn execute(sc: &Scenario, corpus: &mut Corpus, armed: Armed, opts: &ExecOpts
         });
     }
     *shared() = Some(Shared { pool: (0..NPOOL).map(|_| None).collect(), records: Vec::new() });
-    let ctx = Ctx { sc, armed, record: armed.c15 || opts.cold };
+    let ctx = Ctx { sc, armed, record: armed.c15 || opts.cold, dirs_all: sc.dirs.iter().map(|s| s.as_str()).collect() };
     let mut last_canon = String::new();
 
     if !threaded {
